@@ -220,7 +220,12 @@ impl LruDiskCache {
         }
         //TODO: ideally LRUCache::insert would give us back the entries it had to remove.
         while self.size() + size > self.capacity() {
-            let (rel_path, _) = self.lru.remove_lru().expect("Unexpectedly empty cache!");
+            let Some((rel_path, _)) = self.lru.remove_lru() else {
+                // Nothing left to evict: the space is held by entries that are still
+                // being written (`prepare_add` reservations). Refuse instead of panicking
+                // (a panic here would poison the mutex the disk cache lives behind).
+                return Err(Error::FileTooLarge);
+            };
             let remove_path = self.rel_to_abs_path(rel_path);
             //TODO: check that files are removable during `init`, so that this is only
             // due to outside interference.
